@@ -261,3 +261,22 @@ def mfb_exc_atomic(inp):
         if not same:
             bad.append({'fail_at_field_eom_call': fail_at, 'max_field_diff': float(np.abs(np.array(d.fields) - ref_fields).max())})
     return {'violates': bool(bad), 'detail': bad}
+
+
+def tebd_query_between_computes(inp):
+    """compute(k); get_current_density_matrix(sites); compute(n) must record what a single compute(n) records"""
+    ref = _chain().compute(6, progress_type='silent')
+    bad = []
+    for seq in ([2, ('q', 0), 6], [1, ('q', 1), ('q', 2), 3, ('q', 0), 6]):
+        t = _chain()
+        for k in seq:
+            if isinstance(k, tuple):
+                t.get_current_density_matrix(k[1])
+            else:
+                r = t.compute(k, progress_type='silent')
+        dev = max(float(np.abs(np.array(r['dynamics'][s].states) - np.array(ref['dynamics'][s].states)).max()) for s in (0, 1, 2))
+        dn = float(np.abs(np.array(r['norm']) - np.array(ref['norm'])).max())
+        if dev > 1e-9 or dn > 1e-9:
+            bad.append({'history': [('query site %d' % k[1]) if isinstance(k, tuple) else 'compute(%d)' % k for k in seq],
+                        'max_state_deviation_from_single_compute': dev, 'max_norm_deviation': dn})
+    return {'violates': bool(bad), 'detail': bad}
